@@ -53,7 +53,9 @@ def check_fits(cx, t, fn, fits, kwargs, curves, Tref, pc, mix, dcs, include_zero
                 # Arrhenius lemma: f'(x,T) = f(x,Tc) * exp(-Ea/R (1/T - 1/Tc))
                 x, Tq = var('xq'), var('Tq')
                 f0 = Obj('PervaporationFunction', dict(n=f.f['n'], m=f.f['m'], alpha=alpha0, a=f.f['a'], b=PList([b0])))
-                cx.ob(t + ".fits.%d.single-curve.arrhenius" % (i + 1), pc + [resc, Tq > 0, Tc > 0], eq(fval(f, x, Tq), fval(f0, x, Tc) * exp(-(Ea / R) * (1 / Tq - 1 / Tc))), kind='lemma', function=fn,
+                fr = Obj('PervaporationFunction', dict(n=f.f['n'], m=f.f['m'], alpha=alpha0 * exp(-(b0 / Tc) + Ea / (R * Tc)), a=f.f['a'], b=PList([Ea / R])))
+                # lemma on the rescaled function of the `rescaled` obligation above (exponent identity): f'(x,T) = f(x,Tc) exp(-Ea/R (1/T - 1/Tc))
+                cx.ob(t + ".fits.%d.single-curve.arrhenius" % (i + 1), [Tq > 0, Tc > 0], eq(fval(fr, x, Tq), fval(f0, x, Tc) * exp(-(Ea / R) * (1 / Tq - 1 / Tc))), kind='lemma', function=fn,
                       statement="single curve: permeance modelled at T = permeance at the curve temperature x exp(-Ea_i/R (1/T - 1/Tc)) with the membrane's activation energy")
         else:
             cx.ob(t + ".fits.%d.multi-curve.unchanged" % (i + 1), pc, eq(f.f['alpha'], alpha0), function=fn)
